@@ -23,7 +23,7 @@ fn artifacts(v: &Value) -> Value {
 pub fn run(sc: &Value) -> Value {
     let side = sc["side"].as_str().unwrap();
     let rules = sc["rules"].clone();
-    let (em, ep) = if side == "materials" { (rules, json!([])) } else { (json!([]), rules) };
+    let (em, ep) = if side == "both" { (sc["mrules"].clone(), sc["prules"].clone()) } else if side == "materials" { (rules, json!([])) } else { (json!([]), rules) };
     let item: Box<dyn SupplyChainItem> = if sc["item"] == "step" {
         let v = json!({"_type":"step","name":"it","threshold":1,"expected_materials":em,"expected_products":ep,"pubkeys":[],"expected_command":[]});
         let s: Step = match serde_json::from_str(&v.to_string()) { Ok(s) => s, Err(e) => return json!({"outcome":"unparsable-item","message":e.to_string()}) };
